@@ -95,6 +95,36 @@ def split_shape(shape, size):
     return tuple(sorted((p.address, p.size, tuple(sorted((b.offset, b.size, isinstance(b, gtirb.CodeBlock)) for b in p.blocks))) for p in parts))
 
 
+def abi_cases(n, tag):
+    import random
+
+    from harness import c16
+    rnd = random.Random(tag)
+    cases = c16.gen_cases(random.Random(5), "quick")
+    return rnd.sample(cases, min(n, len(cases)))
+
+
+def abi_outputs(n, tag, backwards=False):
+    """what every ABI hands out (register allocation, prologue, epilogue, stack adjustment) for a list of constraint sets, computed
+    one after the other in this interpreter"""
+    import random
+
+    from harness import c16
+    cases = abi_cases(n, tag)
+    order = list(range(len(cases)))
+    if backwards:
+        order.reverse()
+    out = {}
+    for k in order:
+        out[k] = c16.check_case(cases[k], random.Random(0))[0]
+    return [out[k] for k in range(len(cases))]
+
+
+def abi_worker(n, tag):
+    for o in abi_outputs(n, tag):
+        print(json.dumps(["abi", o]))
+
+
 def worker(prop_name, seeds, perm=None):
     """Run in a subprocess with its own PYTHONHASHSEED: one line per seed."""
     import importlib
@@ -116,7 +146,8 @@ class C11(IRProp):
     level_rule = ("the IR correspondence cases, plus the order resolve_offsets returns for every block compared with the model's stable sort; "
                   "every case (its patches carrying constraints: register preservation, scratch registers, stack alignment) re-run in fresh interpreters under "
                   "PYTHONHASHSEED 0, 1, 7, 12345, twice under one seed, and twice with the modifications registered in a permuted order that keeps "
-                  "the order of modifications at one location")
+                  "the order of modifications at one location; every ABI asked for registers, prologue and epilogue of 400 / 3000 constraint sets twice "
+                  "in one process (forwards, backwards) and once in a fresh interpreter under another hash seed")
     oracle_text = ("full output dump (bytes, blocks, symbols incl. temporary label names, edges, function tables, aux tables) identical across hash seeds, "
                    "repeated runs and permutations of the registration order of modifications that target different locations")
 
@@ -197,6 +228,29 @@ class C11(IRProp):
             if len(seen) != 1:
                 bads.append(dict(what=f"split_byte_interval groups the blocks {shape} in {len(seen)} different ways over 12 runs with fresh UUIDs: {sorted(seen)[:2]}",
                                  input={"blocks": shape}, finding=None))
+        # the ABI objects are shared by every context of a process: what they hand out for a constraint set must not depend on what
+        # was asked before (second pass, backwards) nor on the interpreter (fresh process, another hash seed)
+        from harness import c16
+        nabi = {"quick": 400, "thorough": 3000}["thorough" if boosted else tier]
+        tagabi = self.tag + "-abi" + str(C.seed())
+        env = dict(os.environ, PYTHONHASHSEED=self.hashseeds[2], PYTHONPATH="/repo/src:" + C.VERIF)
+        pw = subprocess.Popen([sys.executable, "-c", f"import sys; sys.path.insert(0, '/repo/tests'); from harness.c11 import abi_worker; abi_worker({nabi}, {tagabi!r})"],
+                              stdout=subprocess.PIPE, stderr=subprocess.PIPE, text=True, env=env, cwd=C.VERIF)
+        first = abi_outputs(nabi, tagabi)
+        second = abi_outputs(nabi, tagabi, backwards=True)
+        so, se = pw.communicate(timeout=3000)
+        if pw.returncode != 0:
+            raise RuntimeError("ABI determinism worker failed: " + se[-400:])
+        fresh = [json.loads(l)[1] for l in so.splitlines() if l.startswith('["abi"')]
+        lines = [c16.case_line(c) for c in abi_cases(nabi, tagabi)]
+        for k, line in enumerate(lines):
+            if first[k] != second[k]:
+                bads.append(dict(what=f"the ABI answers the same constraints differently the second time in one process ({line}): {first[k][:200]} then {second[k][:200]}",
+                                 input={"constraints": line}, finding=None))
+            elif k < len(fresh) and fresh[k] != first[k]:
+                bads.append(dict(what=f"the ABI answers the same constraints differently in a fresh interpreter under PYTHONHASHSEED={self.hashseeds[2]} ({line}): {first[k][:200]} vs {fresh[k][:200]}",
+                                 input={"constraints": line}, finding=None))
+        tie_cases += 3 * len(lines)
         return dict(evaluations=len(seeds) * (len(self.hashseeds) + 3) + tie_cases, violations=bads[:10],
                     samples=[{"oracle": self.oracle_text, "hashseeds": list(self.hashseeds), "cases": len(seeds)}])
 
